@@ -25,37 +25,54 @@ import (
 
 // W is the wide model every statement targets.
 type W struct {
-	ID int64
-	C1 int64
-	C2 int64
-	C3 int64
-	C4 int64
-	S1 string
-	S2 string
-	S3 string
-	S4 string
+	ID       int64
+	ParentID *int64
+	Parent   *W
+	OtherID  *int64
+	Other    *W
+	C1       int64
+	C2       int64
+	C3       int64
+	C4       int64
+	S1       string
+	S2       string
+	S3       string
+	S4       string
 }
 
 func (W) TableName() string { return "ws" }
 
 // ---- values ------------------------------------------------------------------------------
 
-// Val is an abstract value: id k; Str selects a hostile string, otherwise a unique integer.
+// Val is an abstract value: id k; Str selects a hostile string, U8 a small number of a named
+// uint8 type, otherwise a unique integer.
 type Val struct {
 	K   int  `json:"k"`
 	Str bool `json:"str"`
+	U8  bool `json:"u8,omitempty"`
 }
+
+// Role is a named type whose underlying type is uint8: a []Role is NOT a byte string.
+type Role uint8
 
 var hostile = []string{"'", "\"", "\\", "?", "@name", ")", "--", "; DROP TABLE ws; --", "é√", "' OR '1'='1", "$1", "`", "(?)", "@p0 "}
 
 func (v Val) Go() interface{} {
+	if v.U8 {
+		return Role(100 + v.K%150)
+	}
 	if v.Str {
 		h := hostile[v.K%len(hostile)]
 		return h + "MK" + strconv.Itoa(v.K) + "Z" + hostile[(v.K/3)%len(hostile)]
 	}
 	return int64(7000000 + v.K)
 }
-func (v Val) ID() string { return "v" + strconv.Itoa(v.K) }
+func (v Val) ID() string {
+	if v.U8 {
+		return "u8:" + strconv.Itoa(100+v.K%150)
+	}
+	return "v" + strconv.Itoa(v.K)
+}
 
 // idOf maps a bound driver value back to the abstract id (or a canonical token).
 func idOf(x interface{}) string {
@@ -66,8 +83,17 @@ func idOf(x interface{}) string {
 		if t >= 7000000 && t < 7100000 {
 			return "v" + strconv.Itoa(int(t-7000000))
 		}
+		if t >= 100 && t < 250 { // a Role (named uint8) value arrives at the driver as int64
+			return "u8:" + strconv.FormatInt(t, 10)
+		}
 		return "i:" + strconv.FormatInt(t, 10)
 	case int:
+		return idOf(int64(t))
+	case Role:
+		return "u8:" + strconv.Itoa(int(t))
+	case uint8:
+		return "u8:" + strconv.Itoa(int(t))
+	case uint64:
 		return idOf(int64(t))
 	case string:
 		if m := markerRe.FindStringSubmatch(t); m != nil {
@@ -249,6 +275,13 @@ func argGo(a Arg, base *gorm.DB) interface{} {
 	case "nil":
 		return nil
 	case "slice":
+		if len(a.Vs) > 0 && a.Vs[0].U8 {
+			out := []Role{}
+			for _, v := range a.Vs {
+				out = append(out, v.Go().(Role))
+			}
+			return out
+		}
 		if len(a.Vs) > 0 && a.Vs[0].Str {
 			out := []string{}
 			for _, v := range a.Vs {
@@ -336,6 +369,10 @@ func apply(tx *gorm.DB, base *gorm.DB, p Part) *gorm.DB {
 	case "Table":
 		sub := base.Session(&gorm.Session{NewDB: true}).Model(&W{}).Where(t, args...)
 		return tx.Table("(?) AS ws", sub)
+	case "JoinsRel": // relation join with extra ON conditions
+		return tx.Joins("Parent", base.Session(&gorm.Session{NewDB: true}).Where(t, args...))
+	case "JoinsRel2":
+		return tx.Joins("Other", base.Session(&gorm.Session{NewDB: true}).Where(t, args...))
 	}
 	panic("apply " + p.M)
 }
@@ -420,6 +457,12 @@ func Run(base *gorm.DB, p Prog) *gorm.DB {
 		return tx.Model(&W{}).Updates(mapOf(p.Fin.Pay))
 	case "delete":
 		return tx.Delete(&W{})
+	case "delete_returning":
+		var out []W
+		return tx.Model(&out).Clauses(clause.Returning{}).Delete(&out)
+	case "update_returning":
+		var out []W
+		return tx.Model(&out).Clauses(clause.Returning{Columns: []clause.Column{{Name: "id"}}}).Update(p.Fin.Pay[0].Col, p.Fin.Pay[0].V.Go())
 	case "create":
 		w := wOf(p.Fin.Pay)
 		return base.Create(&w)
@@ -642,8 +685,11 @@ func (g *gen) hole(depth int) Hole {
 	case c < 12:
 		n := g.r.Intn(4)
 		a := Arg{K: "slice"}
+		u8 := !str && g.r.Intn(3) == 0
 		for i := 0; i < n; i++ {
-			a.Vs = append(a.Vs, g.val(str))
+			v := g.val(str)
+			v.U8 = u8
+			a.Vs = append(a.Vs, v)
 		}
 		h.Arg = a
 		h.Op = []string{"IN", "INP"}[g.r.Intn(2)]
@@ -691,7 +737,7 @@ func (g *gen) pay(n int) []Pair {
 func RandProg(r *rand.Rand) Prog {
 	g := &gen{r: r}
 	var p Prog
-	kinds := []string{"find", "first", "count", "pluck", "update", "updates", "updates_map", "delete", "create", "create_slice", "create_map", "upsert", "raw", "exec", "rows"}
+	kinds := []string{"find", "first", "count", "pluck", "update", "updates", "updates_map", "delete", "delete_returning", "update_returning", "create", "create_slice", "create_map", "upsert", "raw", "exec", "rows"}
 	p.Fin.Kind = kinds[r.Intn(len(kinds))]
 	switch p.Fin.Kind {
 	case "raw", "exec", "rows":
@@ -717,14 +763,14 @@ func RandProg(r *rand.Rand) Prog {
 		p.Fin.Pay = g.pay(8)
 		p.Fin.Pay2 = g.pay(1 + r.Intn(3))
 		return p
-	case "update":
+	case "update", "update_returning":
 		p.Fin.Pay = g.pay(1)
 	case "updates", "updates_map":
 		p.Fin.Pay = g.pay(1 + r.Intn(4))
 	}
 	ms := []string{"Where", "Where", "Where", "Not", "Or", "Clauses"}
 	if p.Fin.Kind == "find" || p.Fin.Kind == "first" {
-		ms = append(ms, "Having", "Joins", "Select", "Table")
+		ms = append(ms, "Having", "Joins", "Select", "Table", "JoinsRel", "JoinsRel2")
 	}
 	if p.Fin.Kind == "find" { // First replaces an expression ORDER BY by its own key ordering
 		ms = append(ms, "Order")
@@ -736,7 +782,7 @@ func RandProg(r *rand.Rand) Prog {
 		if i == 0 && m == "Or" {
 			m = "Where"
 		}
-		if used[m] && (m == "Having" || m == "Joins" || m == "Select" || m == "Order" || m == "Table") {
+		if used[m] && (m == "Having" || m == "Joins" || m == "Select" || m == "Order" || m == "Table" || m == "JoinsRel" || m == "JoinsRel2") {
 			m = "Where"
 		}
 		used[m] = true
@@ -744,7 +790,7 @@ func RandProg(r *rand.Rand) Prog {
 		nh := 1 + r.Intn(2)
 		for j := 0; j < nh; j++ {
 			h := g.hole(1)
-			if (part.Named || m == "Select" || m == "Order" || m == "Joins") && (h.Arg.K == "nested" || h.Arg.K == "sub") {
+			if (part.Named || m == "Select" || m == "Order" || m == "Joins" || m == "JoinsRel" || m == "JoinsRel2") && (h.Arg.K == "nested" || h.Arg.K == "sub" || h.Arg.K == "expr") {
 				h = g.hole(0)
 			}
 			part.Holes = append(part.Holes, h)
